@@ -245,14 +245,19 @@ def run_case(ctx, c):
         check_space(ctx, c["xf"], c["xb"], c["L"], c.get("tag", {}))
 
 
-def run(ctx):
+def part(ctx, k, nparts):
     rng = ctx.rng
-    for c in corpus_cases():
-        run_case(ctx, c)
-        ctx.count("corpus")
+    if k == 0:
+        for c in corpus_cases():
+            run_case(ctx, c)
+            ctx.count("corpus")
     N = 6 if ctx.quick else 7
+    idx = 0
     for n in range(1, N + 1):
         for pattern in itertools.product(range(4), repeat=n):
+            idx += 1
+            if idx % nparts != k:
+                continue
             missing = sum(1 for c in pattern if c != 3)
             fw, bw = history(pattern, None)
             for verify in (False, True):
@@ -263,7 +268,7 @@ def run(ctx):
             for verify in (False, True):
                 check_times(ctx, fw, bw, verify, dict(n=n, missing=missing, jitter=True))
     # irregular histories: a pause after some cycles, several forwards in a row, long runs
-    for _ in range(300 if ctx.quick else 3000):
+    for _ in range((300 if ctx.quick else 3000) // nparts):
         n = rng.randint(2, 12)
         ts = sorted(rng.sample(range(0, 400), 2 * n))
         dirs = [rng.random() < 0.5 for _ in ts]
@@ -271,10 +276,16 @@ def run(ctx):
         bw = [t * HALF for t, d in zip(ts, dirs) if not d]
         for verify in (False, True):
             check_times(ctx, fw, bw, verify, dict(kind="random", missing=1))
-    for _ in range(150 if ctx.quick else 2000):
+    for _ in range((150 if ctx.quick else 2000) // nparts):
         xf, xb, L = gen_space(rng)
         check_space(ctx, xf, xb, L, dict(kind="random"))
-    check_swapped(ctx)
+    if k == 1:
+        check_swapped(ctx)
+
+
+def run(ctx):
+    nparts = 8
+    core.parallel_cases(ctx, part, [(k, nparts) for k in range(nparts)], jobs=8)
 
 
 def search(ctx):
